@@ -82,6 +82,12 @@ claim("C04", "exploration",
   "deterministic simulation: tape-driven instance graphs and cross-instance histories vs single-copy reference model, allocator fault injection (always-move + PROT_NONE, allocation failure)",
   "DESIGN.md §5 C04")
 
+claim("C09", "exploration",
+  "Seeded simulation of lifecycle histories over a small module family (exporter with function/table/reference getter, importer of function and table, private-table/funcref-global holder, importer that pauses inside a host function) in one runtime or two runtimes sharing a compilation cache: instantiate (both ways), call, pass a function reference via the host, close instance / compiled module / cache, drop host references, forced GC with drained finalizers, with a call optionally in progress. The collector runs only where the tape says. A twin runtime gets the same history without close/drop/GC; every call on a still-open instance must return the twin's result or an ordinary error, and the worker must survive. The recorded known finding (dangling reference in a private table/global) is recognised by a reference-holder analysis, skipped in the main classes and reproduced in a sacrificial child.",
+  "Trusted: the reference-holder analysis that separates the known finding from everything else; GC percent -1 + explicit runtime.GC makes collection a simulator event; one definer per run (the twin never closes it).",
+  "deterministic simulation: simulator-owned garbage collection and close/drop events over module graphs, twin-runtime oracle, process-survival watchdog",
+  "DESIGN.md §5 C09")
+
 def main():
     m = dict(version=1,
       setup_cmd="./setup.sh",
